@@ -486,7 +486,7 @@ func decidePairs(r *raceLog, cands []pair, solverKind string, st *smt.Stats) ([]
 			}
 		}
 	}
-	s, err := smt.Start(solverKind, 60e9, st)
+	s, err := smt.Start(solverKind, 240e9, st)
 	if err != nil {
 		return nil, stats, []string{"race analysis: cannot start solver: " + err.Error()}
 	}
@@ -542,6 +542,20 @@ func decidePairs(r *raceLog, cands []pair, solverKind string, st *smt.Stats) ([]
 		}
 		res := s.Check()
 		stats.Queries++
+		if res == smt.Unknown {
+			// a time-out on a loaded machine: decide the same query once more on a fresh
+			// solver process with a long time-out before giving up
+			if s2, err2 := smt.Start(solverKind, 900e9, st); err2 == nil {
+				for _, b := range base {
+					s2.Assert(b)
+				}
+				for _, t := range q {
+					s2.Assert(t)
+				}
+				res = s2.Check()
+				s2.Close()
+			}
+		}
 		switch res {
 		case smt.Sat:
 			stats.Sat++
